@@ -17,6 +17,11 @@ WORKDIR = os.path.join(C.WORK, "serde")
 
 F2 = "C29:F2:limit-crossed-at:"
 F7 = ":F7:canonical-min-5byte-prefix"      # prefixed with the property id
+F8 = "C15:F8:serialized-length-atom-u32-overflow"
+
+
+def _is_f8_size(n):
+    return (1 << 32) - 5 <= n < (1 << 32)
 
 
 def _h(x):
@@ -211,6 +216,10 @@ def _s2i(prop, out, m):
         sig = prop + F7
         desc = "is_canonical_serialization rejects the canonical serialization of a %d-byte atom (prefix %s)" % (
             C.le_n(c["n"]), bytes(c["p"]).hex())
+    elif kind == "prefix" and viol == ["prefix.cache"] and _is_f8_size(C.le_n(c["n"])):
+        sig = F8
+        desc = "serialized_length_atom (ObjectCache serialized length) overflows u32 for an atom of %d bytes: %s" % (
+            C.le_n(c["n"]), json.dumps({k: v for k, v in obs["bigser"].items() if k in ("cache", "cache_panic")}))
     else:
         key = c.get("b", c.get("t", [c.get("n"), c.get("p"), c.get("fill")]))
         sig = "%s:s2i:%s:%s:%s" % (prop, kind, "+".join(sorted(set(viol))), _h(key))
@@ -288,6 +297,10 @@ def _i2s(prop, out, m, e):
         sig = prop + F7
         desc = "is_canonical_serialization rejects the canonical serialization of a %d-byte atom (prefix %s)" % (
             C.le_n(e["have"]), bytes(e["p"]).hex())
+    elif ev == "bigser" and viol == ["bigser.cache"] and e and _is_f8_size(C.le_n(e["n"])) and prop == "C15":
+        sig = F8
+        desc = "serialized_length_atom (ObjectCache serialized length) overflows u32 for an atom of %d bytes: %s" % (
+            C.le_n(e["n"]), json.dumps({k: v for k, v in e.items() if k in ("cache", "cache_panic", "via")}))
     else:
         sig = "%s:i2s:%s:%s:%s" % (prop, ev, "+".join(sorted(set(viol))), _h(_input_of(e or {})))
         desc = "recorded %s call contradicts SerClassic.tla (%s): %s" % (ev, ",".join(viol), json.dumps(_strip(e))[:240])
@@ -310,9 +323,9 @@ def _strip(e):
 
 PLAN = {
     # prop: (MC kinds, trace mix, scenarios per shard (quick, thorough), shards (quick, thorough), special)
-    "C15": (["tree", "prefix", "bytes"], "C15", (700, 3000), (4, 8), True),
+    "C15": (["tree", "prefix", "bytes"], "C15", (700, 2500), (4, 8), True),
     "C16": (["bytes", "prefix"], "C16", (1000, 4000), (4, 8), False),
-    "C29": (["limit"], "C29", (400, 1200), (4, 8), False),
+    "C29": (["limit"], "C29", (250, 1200), (4, 8), False),
 }
 
 
